@@ -1446,6 +1446,19 @@ func (e *nnsEngine) isO(n *nnsName, signers []Signer) int {
 	return nnsAuthNo
 }
 
+// deadNameRule names the rule broken when a call about a name without a live
+// enclosing registration takes effect. If the signers hold the witnesses of an
+// expired registration of it, what failed is the end of the lifetime (C10:
+// rights end at the expiration instant), not the witness check (C11).
+func (e *nnsEngine) deadNameRule(name string, signers []Signer) string {
+	for s := name; nnsLevel(s) >= 2; s = nnsParent(s) {
+		if n := e.m.get(s); n != nil && e.isO(n, signers) != nnsAuthNo {
+			return "C10/rights-outlive-expiration"
+		}
+	}
+	return nnsRuleUnauth
+}
+
 func nnsRefuse(rule, why string, auth int) *nnsVerdict {
 	return &nnsVerdict{exp: mustRefuse, rule: rule, why: why, auth: auth}
 }
@@ -1640,7 +1653,7 @@ func (e *nnsEngine) predictRegister(c *nnsCall, now int64) *nnsVerdict {
 	} else {
 		// "only by the owner/admin of the directly enclosing name"
 		if !m.ownAlive(parent, now) {
-			return nnsRefuse(nnsRuleUnauth, "enclosing name not registered/expired: nobody may", nnsAuthNo)
+			return nnsRefuse(e.deadNameRule(nnsParent(c.name), c.signers), "enclosing name not registered/expired: nobody may", nnsAuthNo)
 		}
 		auth = e.isO(parent, c.signers)
 	}
@@ -1759,7 +1772,7 @@ func (e *nnsEngine) predictRecord(c *nnsCall, now int64) *nnsVerdict {
 		tok = m.token(c.name, now)
 	}
 	if tok == nil {
-		return nnsRefuse(nnsRuleUnauth, "no registered unexpired enclosing name: nobody may", nnsAuthNo)
+		return nnsRefuse(e.deadNameRule(c.name, c.signers), "no registered unexpired enclosing name: nobody may", nnsAuthNo)
 	}
 	auth := e.isO(tok, c.signers)
 	if auth == nnsAuthNo {
